@@ -4,7 +4,6 @@ import (
 	"io"
 	"sort"
 	"strconv"
-	"strings"
 
 	"github.com/200sc/bebop/iohelp"
 )
@@ -131,7 +130,7 @@ func (msg Message) generateDecodeBebop(w *iohelp.ErrorWriter, settings GenerateS
 		writeLine(w, "\t\tcase %d:", fd.num)
 		name := exposeName(fd.Name, settings)
 		writeLine(w, "\t\t\tbbp.%[1]s = new(%[2]s)", name, fd.FieldType.goString(settings))
-		writeMessageFieldUnmarshaller("bbp."+name, fd.FieldType, w, settings, 3)
+		writeStructFieldUnmarshaller("&(*bbp."+name+")", fd.FieldType, w, settings, 3)
 	}
 	// ref: https://github.com/RainwayApp/bebop/wiki/Wire-format#messages, final paragraph
 	// we're allowed to skip parsing all remaining fields if we see one that we don't know about.
@@ -195,32 +194,4 @@ func (msg Message) Generate(w io.Writer, settings GenerateSettings) {
 	msg.generateSize(ew, settings, fields)
 	// a message always has a length prefix and terminator, even without fields
 	writeWrappers(ew, msg.Name, false, settings)
-}
-
-func writeMessageFieldUnmarshaller(name string, typ FieldType, w *iohelp.ErrorWriter, settings GenerateSettings, depth int) {
-	if typ.Array != nil {
-		writeLineWithTabs(w, "%RECV = make([]%TYPE, iohelp.ReadUint32(r))", depth, name, typ.Array.goString(settings))
-		if typ.Array.Simple == typeByte {
-			writeLineWithTabs(w, "r.Read(%RECV)", depth, name)
-		} else {
-			writeLineWithTabs(w, "for i := range %RECV {", depth, name)
-			writeMessageFieldUnmarshaller("("+name+")[i]", *typ.Array, w, settings, depth+1)
-			writeLineWithTabs(w, "}", depth)
-		}
-	} else if typ.Map != nil {
-		lnName := depthName("ln", depth)
-		writeLineWithTabs(w, lnName+" := iohelp.ReadUint32(r)", depth)
-		writeLineWithTabs(w, "%RECV = make("+typ.Map.goString(settings)+")", depth, name)
-		writeLineWithTabs(w, "for i := uint32(0); i < "+lnName+"; i++ {", depth, name)
-		ln := getLineWithTabs(settings.typeUnmarshallers[typ.Map.Key], depth+1, "&"+depthName("k", depth))
-		w.SafeWrite([]byte(strings.Replace(ln, "=", ":=", 1)))
-		writeMessageFieldUnmarshaller("("+name+")["+depthName("k", depth)+"]", typ.Map.Value, w, settings, depth+1)
-		writeLineWithTabs(w, "}", depth)
-	} else {
-		simpleTyp := typ.Simple
-		if alias, ok := settings.importTypeAliases[simpleTyp]; ok {
-			simpleTyp = alias
-		}
-		writeLineWithTabs(w, settings.typeUnmarshallers[simpleTyp], depth, name, typ.goString(settings))
-	}
 }
